@@ -235,7 +235,7 @@ impl C15 {
                 .map(|_| {
                     let n = rng.below(nn) as u8;
                     match rng.below(100) {
-                        0..=44 => Op::Add { n, s: rng.below(3) as u8 },
+                        0..=44 => Op::Add { n, s: pick_sal(&mut rng) },
                         45..=69 => Op::Remove { n },
                         70..=92 => Op::Enable { n, on: rng.bool() },
                         _ => Op::Clear,
@@ -274,7 +274,7 @@ impl C15 {
                 .map(|_| {
                     let n = rng.below(WIDE_NAMES) as u8;
                     match rng.below(100) {
-                        0..=69 => Op::Add { n, s: rng.below(3) as u8 },
+                        0..=69 => Op::Add { n, s: pick_sal(&mut rng) },
                         70..=84 => Op::Remove { n },
                         85..=98 => Op::Enable { n, on: rng.bool() },
                         _ => Op::Clear,
@@ -516,7 +516,7 @@ impl Check for C15 {
         "C15"
     }
     fn rule(&self) -> String {
-        "sequential, EXHAUSTIVE: every sequence of length 1..=5 (quick) / 1..=6 (thorough) over the 25 mutating operations {add 4 names x 3 saliences, remove x4, enable x4, disable x4, clear}: return value and version checked after every operation, every read view (get_rule for all 4 names, get_rules, get_rule_names, rule_count, get_rules_by_salience+get_rule_by_index, get_statistics, version) compared with the ordered-list+version model after the last one; sequential, SAMPLED: random sequences of length 6..=8 (1 in 8: 9..=16) over 2-4 names with every view compared after every operation; plus 'wide' random sequences of 30..=90 operations over 48 names (beyond the stated 4-name bound; long lists with many equal saliences), views compared after the last operation. A sequential case is non-trivial when at least 2 rules were stored at some point and it contains an operation other than a first-time add (rejected duplicate, missing-name operation, removal, enable/disable, clear); distinct by operation sequence (length>=5 exhaustive cases are counted, not hashed). Concurrent, SAMPLED: random programs of 3 threads x 4 operations (all ten operation kinds, 2-3 names, 0-2 set-up adds) on one Arc<KnowledgeBase> under seeded yields/sleeps at the library's schedule points and before every call; each recorded history (client-side call/return stamps from one atomic clock) is checked for linearizability (WGL search memoised on (linearised set, model state), step cap => inconclusive). A concurrent history is non-trivial when operations of different threads overlapped in real time and a worker-thread operation changed the store; distinct by recorded history. Thorough adds the same generator under Miri many-seeds (64 scheduler seeds x 20 histories) and a ThreadSanitizer build (8 processes x 5000 histories).".into()
+        "sequential, EXHAUSTIVE: every sequence of length 1..=5 (quick) / 1..=6 (thorough) over the 25 mutating operations {add 4 names x 3 saliences, remove x4, enable x4, disable x4, clear}: return value and version checked after every operation, every read view (get_rule for all 4 names, get_rules, get_rule_names, rule_count, get_rules_by_salience+get_rule_by_index, get_statistics, version) compared with the ordered-list+version model after the last one; sequential, SAMPLED (saliences also i32::MIN / i32::MAX, 1 add in 6): random sequences of length 6..=8 (1 in 8: 9..=16) over 2-4 names with every view compared after every operation; plus 'wide' random sequences of 30..=90 operations over 48 names (beyond the stated 4-name bound; long lists with many equal saliences), views compared after the last operation. A sequential case is non-trivial when at least 2 rules were stored at some point and it contains an operation other than a first-time add (rejected duplicate, missing-name operation, removal, enable/disable, clear); distinct by operation sequence (length>=5 exhaustive cases are counted, not hashed). Concurrent, SAMPLED: random programs of 3 threads x 4 operations (all ten operation kinds, 2-3 names, 0-2 set-up adds) on one Arc<KnowledgeBase> under seeded yields/sleeps at the library's schedule points and before every call; each recorded history (client-side call/return stamps from one atomic clock) is checked for linearizability (WGL search memoised on (linearised set, model state), step cap => inconclusive). A concurrent history is non-trivial when operations of different threads overlapped in real time and a worker-thread operation changed the store; distinct by recorded history. Thorough adds the same generator under Miri many-seeds (64 scheduler seeds x 20 histories) and a ThreadSanitizer build (8 processes x 5000 histories).".into()
     }
     fn assumptions(&self) -> Vec<String> {
         vec![
